@@ -31,7 +31,7 @@ Vals  == {"v1", "v2"}
 
 Lines == [k : {"sw"}, form : Forms, arg : Args, v : {""}]
          \cup [k : {"setA", "setX"}, form : {""}, arg : {""}, v : Vals]
-         \cup [k : {"getA", "getX", "declX", "bad", "help", "empty"}, form : {""}, arg : {""}, v : {""}]
+         \cup [k : {"getA", "getX", "declX", "bad", "badX", "help", "empty"}, form : {""}, arg : {""}, v : {""}]
 
 VARIABLES scope,   \* scope of the session (mechanism)
           A,       \* req.http.A: "" = not set
@@ -55,6 +55,7 @@ Step(l) ==
                  [] l.k = "getX" -> IF xdecl THEN Show(X) ELSE "error"
                  [] l.k = "setX" -> IF xdecl THEN "" ELSE "error"
                  [] l.k = "bad"  -> "error"
+                 [] l.k = "badX" -> "error"       \* `set var.x = 10;` parses and fails (type mismatch / undeclared): nothing changes
                  [] l.k = "help" -> "help"
                  [] l.k = "sw"   -> "scope"
                  [] OTHER -> ""
